@@ -192,12 +192,33 @@ fn thresholds(d: &mut Drv) {
     }
 }
 
+/// angle_between on floats does not depend on the LENGTHS of the vectors: multiples of 45 degrees between vectors that
+/// are both very short, ordinary, or both very long (their squared lengths still finite, the product of the squared
+/// lengths not); logged as round(angle * 2^16)
+fn float_angles(d: &mut Drv) {
+    let dirs: [(f64, f64); 5] = [(1.0, 0.0), (1.0, 1.0), (0.0, 1.0), (-1.0, 1.0), (-1.0, 0.0)];
+    let sc = |x: f64| if x.is_finite() { (x * 65536.0).round() as i64 } else { -1 };
+    for (k, (x, y)) in dirs.iter().enumerate() {
+        for mag in [1e-12f64, 1e-3, 1.0, 3e9, 1e10] {
+            let (m, xx, yy) = (mag as f32, *x as f32, *y as f32);
+            d.call("v_angle_f", || json!({"ty": "Vec2<f32>", "eighths": k, "mag": format!("{:e}", mag)}), || json!(sc(Vec2::new(m, 0.0).angle_between(Vec2::new(xx * m, yy * m)) as f64)));
+            d.call("v_angle_f", || json!({"ty": "Vec3<f32>", "eighths": k, "mag": format!("{:e}", mag)}), || json!(sc(Vec3::new(0.0, m, 0.0).angle_between(Vec3::new(0.0, xx * m, yy * m)) as f64)));
+            d.call("v_angle_f", || json!({"ty": "Vec8<f32>", "eighths": k, "mag": format!("{:e}", mag)}), || json!(sc(Vec8::new(0.0, 0.0, m, 0.0, 0.0, 0.0, 0.0, 0.0).angle_between(Vec8::new(0.0, 0.0, xx * m, 0.0, 0.0, 0.0, 0.0, yy * m)) as f64)));
+        }
+        for mag in [1e-90f64, 1.0, 1e80] {
+            d.call("v_angle_f", || json!({"ty": "Vec4<f64>", "eighths": k, "mag": format!("{:e}", mag)}), || json!(sc(Vec4::new(mag, 0.0, 0.0, 0.0).angle_between(Vec4::new(x * mag, 0.0, y * mag, 0.0)))));
+            d.call("v_angle_f", || json!({"ty": "Extent2<f64>", "eighths": k, "mag": format!("{:e}", mag)}), || json!(sc(vek::Extent2::new(mag, 0.0).angle_between(vek::Extent2::new(x * mag, y * mag)))));
+        }
+    }
+}
+
 pub fn drive_spatial(args: &[String]) {
     let n: usize = arg_or(args, "--n", "10").parse().unwrap();
     let seed: u64 = arg_or(args, "--seed", "1").parse().unwrap();
     let mut d = Drv::new(&arg(args, "--out").expect("--out"), seed);
     set_pair_mode(true);
     thresholds(&mut d);
+    float_angles(&mut d);
     for _ in 0..n { generic(&mut d); for _ in 0..4 { specific(&mut d); } }
     d.finish(arg(args, "--summary"));
 }
